@@ -11,7 +11,8 @@ RULE = ('corpus (design-phase witnesses); exhaustive scope: every boolean image 
         'strongly elongated shapes (1xn, nx1x1, 1x1xn, n), single background pixels in corners, sparse/dense background, '
         'all-foreground, all-background; gvoronoi on 1-4 D label images (ties included, compared on the set of nearest '
         'labels); the 1-D kernel _distance.dt on arbitrary sampled integer functions; zero-sized and 0-d inputs in '
-        'isolated processes. Non-trivial = some foreground pixel has a background pixel to measure to; '
+        'isolated processes; size-threshold stream: lines of 2^16 +- 1 and more pixels inside 1-4 D arrays (distance and '
+        'gvoronoi, labels > 65529), judged with the Lean specification alone. Non-trivial = some foreground pixel has a background pixel to measure to; '
         'distinct = distinct protocol line + layout + metric.')
 ASSUMPTIONS = ['axis lengths < 2^12: the intersection abscissae of the C kernel are single correctly rounded double divisions '
                'of integers < 2^53 and are only compared with each other / with integers; the model computes them in exact '
@@ -117,6 +118,8 @@ def _eval_single(cases):
         f = []
         nontriv = False
         tags = dict(kind=k, ndim=len(c.get('shape', [])), layout=c.get('layout', 'C'), dtype=c.get('dtype', '-'))
+        if c.get('size'):
+            tags['size'] = c['size']
         if k == 'dist':
             A = _mk(c)
             before = A.copy()
@@ -404,6 +407,26 @@ def cases(rng, tier):
             for q in pos:
                 data[q] = 0
             rands.append(dict(kind='dist', shape=shape, dtype='bool', data=data, layout='C', metric='euclidean2', lite=True))
+    # size-threshold stream: lines crossing 2^16 (+-1) inside n-D arrays (1-D, 1 x n x 1, n x 1 x 1, 1 x 1 x 1 x n): the per-axis
+    # line loop of distance()/gvoronoi() for ranks other than 2, and the 2-D kernel on n x 2; an index, root position or
+    # origin narrowed to 16 bits passes every small case. Specification only (`lite`: O(N * #sources) in the driver).
+    nthr = dict(quick=3, thorough=12, search=4)[tier]
+    for i in range(nthr):
+        n = rng.choice([65535, 65536, 65537, 65537, 66000 + rng.randrange(3000)])
+        shape = rng.choice([[n], [1, n, 1], [n, 1, 1], [1, 1, 1, n], [n, 2], [2, n]])
+        N = int(np.prod(shape))
+        pos = sorted({rng.randrange(N) for _ in range(rng.randint(2, 5))} | {N - 1 - rng.randrange(3), rng.randrange(3)}
+                     | {65535 + rng.randrange(-1, 2) for _ in range(2) if N > 65537})
+        if i % 2 == 0:
+            data = [1] * N
+            for q in pos:
+                data[q] = 0
+            rands.append(dict(kind='dist', shape=shape, dtype='bool', data=data, layout='C', metric='euclidean2', lite=True, size='threshold'))
+        else:
+            data = [0] * N
+            for k, q in enumerate(pos):
+                data[q] = 65530 + k
+            rands.append(dict(kind='gvor', shape=shape, dtype=rng.choice(['int32', 'uint32']), data=data, layout='C', lite=True, size='threshold'))
     return _interleave(out, blocks, rands)
 
 
